@@ -212,6 +212,158 @@ EnumerateJunction(uint64_t n, double alpha, Stats &st)
   }
 }
 
+// Wide 32-bit ranges of the approximate class (C06, and "exactly 1 at the last bin" / monotone of C18): bin counts next
+// to 2^30, 2^31 and 2^32, where positions, `n + 1` and `max - min + 1` approach the limits of IntType and of the
+// 64-bit search positions. (The exact class cannot be built at these sizes: its table has n entries.) The bin count
+// itself must be representable in IntType, i.e. the full range of the type is not in the grid. Each configuration runs
+// in a child process with a CPU-time limit: a search or a construction that does not terminate is a violation with
+// a replayable input, not a time-out of the harness.
+template <class T>
+void
+EnumerateWideBody(T mn, uint64_t n, double alpha, Stats &st)
+{
+  const T mx = static_cast<T>(static_cast<uint64_t>(mn) + (n - 1));
+  ApproxZipfDistribution<T> dist{mn, mx, alpha};
+  ++st.configs;
+  for (uint64_t x : {0ULL, 1ULL << 62, 1ULL << 63, 3ULL << 62, 0xF000000000000000ULL, 0xFFFFFFFFFFFFF000ULL, ~0ULL}) CheckDraw<T>(dist, mn, mx, alpha, x, st, "wide");
+  double prev = -1;
+  uint64_t prev_k = 0;
+  const std::string cfg = Fmt("C06;%s;approx;%" PRId64 ";%" PRId64 ";%s;0", TypeName<T>(), static_cast<int64_t>(mn), static_cast<int64_t>(mx), HexD(alpha).c_str());
+  for (uint64_t k : std::initializer_list<uint64_t>{0, 1, 97, 98, 99, 100, 101, 1000, n / 4, n / 2 - 1, n / 2, n / 2 + 1, n / 4 * 3, n - 1000, n - 3, n - 2, n - 1}) {
+    if (k >= n || (prev >= 0 && k <= prev_k)) continue;
+    const double c = dist.GetCDF(static_cast<T>(k));
+    if (!(c >= 0.0) || !(c <= 1.0) || (prev >= 0 && c < prev)) {
+      st.Add("C06,C18", "CDF-NOT-A-CDF:approx:wide",
+             Fmt("ApproxZipfDistribution<%s>(min=%" PRId64 ", max=%" PRId64 ", alpha=%.17g): GetCDF(%" PRIu64 ") = %.17g after GetCDF(%" PRIu64 ") = %.17g (%" PRIu64 " bins)",
+                 TypeName<T>(), static_cast<int64_t>(mn), static_cast<int64_t>(mx), alpha, k, c, prev_k, prev, n),
+             cfg);
+    }
+    if (k == n - 1 && c != 1.0) {
+      st.Add("C18", "LAST-BIN-NOT-ONE:approx:wide",
+             Fmt("ApproxZipfDistribution<%s>(min=%" PRId64 ", max=%" PRId64 ", alpha=%.17g): GetCDF(last bin %" PRIu64 ") = %.17g, not 1", TypeName<T>(),
+                 static_cast<int64_t>(mn), static_cast<int64_t>(mx), alpha, k, c),
+             cfg);
+    }
+    if (c != prev) ++st.classes;
+    prev = c;
+    prev_k = k;
+    uint64_t x = 0;
+    if (!(c > 0) || !FirstReaching(c, x)) x = ~0ULL;
+    for (int d = -2; d <= 2; ++d) {
+      const uint64_t y = x + static_cast<uint64_t>(static_cast<int64_t>(d));
+      if ((d < 0 && y > x) || (d > 0 && y < x)) continue;
+      CheckDraw<T>(dist, mn, mx, alpha, y, st, "wide");
+    }
+  }
+}
+
+template <class T>
+void
+EnumerateWide(T mn, uint64_t n, double alpha, Stats &st)
+{
+  const T mx = static_cast<T>(static_cast<uint64_t>(mn) + (n - 1));
+  const std::string cfg = Fmt("C06;%s;wide;%" PRId64 ";%" PRId64 ";%s;0", TypeName<T>(), static_cast<int64_t>(mn), static_cast<int64_t>(mx), HexD(alpha).c_str());
+  int fd[2];
+  if (pipe(fd) != 0) return;
+  fflush(nullptr);
+  const pid_t pid = fork();
+  if (pid == 0) {
+    close(fd[0]);
+    struct rlimit rl {30, 31};  // construction of 4e9 bins takes about 2 s
+    setrlimit(RLIMIT_CPU, &rl);
+    Stats child;
+    try {
+      EnumerateWideBody<T>(mn, n, alpha, child);
+    } catch (const std::exception &e) {
+      child.Add("C06", "EXCEPTION:approx:wide",
+                Fmt("ApproxZipfDistribution<%s>(min=%" PRId64 ", max=%" PRId64 ", alpha=%.17g) threw %s while sampling or reading its CDF", TypeName<T>(),
+                    static_cast<int64_t>(mn), static_cast<int64_t>(mx), alpha, e.what()),
+                cfg);
+    }
+    std::string o = Fmt("%" PRIu64 "\x01%" PRIu64 "\x01%" PRIu64 "\n", child.evaluations, child.classes, child.configs);
+    for (auto &f : child.findings) o += f.prop + "\x01" + f.sig + "\x01" + f.msg + "\x01" + f.input + "\n";
+    size_t off = 0;
+    while (off < o.size()) {
+      const ssize_t w = write(fd[1], o.data() + off, o.size() - off);
+      if (w <= 0) break;
+      off += static_cast<size_t>(w);
+    }
+    _exit(0);
+  }
+  close(fd[1]);
+  std::string in;
+  char buf[4096];
+  for (;;) {
+    const ssize_t r = read(fd[0], buf, sizeof buf);
+    if (r > 0) {
+      in.append(buf, static_cast<size_t>(r));
+    } else if (r < 0 && errno == EINTR) {
+      continue;
+    } else {
+      break;
+    }
+  }
+  close(fd[0]);
+  int status = 0;
+  waitpid(pid, &status, 0);
+  if (!WIFEXITED(status) || WEXITSTATUS(status) != 0 || in.empty()) {
+    ++st.configs;
+    st.Add("C06", "NO-RESULT:approx:wide",
+           Fmt("ApproxZipfDistribution<%s>(min=%" PRId64 ", max=%" PRId64 ", alpha=%.17g) with %" PRIu64 " bins: construction or sampling %s", TypeName<T>(), static_cast<int64_t>(mn),
+               static_cast<int64_t>(mx), alpha, n, WIFSIGNALED(status) && WTERMSIG(status) == SIGXCPU ? "did not terminate within 30 s of CPU time" : "ended abnormally"),
+           cfg);
+    return;
+  }
+  std::stringstream ss(in);
+  std::string line;
+  bool first = true;
+  while (std::getline(ss, line)) {
+    if (first) {
+      unsigned long long a = 0, b = 0, c = 0;
+      sscanf(line.c_str(), "%llu\x01%llu\x01%llu", &a, &b, &c);
+      st.evaluations += a;
+      st.classes += b;
+      st.configs += c;
+      first = false;
+      continue;
+    }
+    std::vector<std::string> f;
+    std::stringstream ls(line);
+    std::string x;
+    while (std::getline(ls, x, '\x01')) f.push_back(x);
+    if (f.size() >= 4) st.Add(f[0].c_str(), f[1], f[2], f[3]);
+  }
+}
+
+struct WideCfg {
+  uint64_t n;
+  int min_kind;  // 0: smallest admissible minimum (0 / type minimum), 1: largest (max = type maximum)
+};
+
+template <class T>
+void
+RunWide(int part, bool thorough, Stats &st)
+{
+  std::vector<uint64_t> ns;
+  if constexpr (std::is_same_v<T, uint32_t>) {
+    ns = thorough ? std::vector<uint64_t>{(1ULL << 31) - 1, 1ULL << 31, (1ULL << 31) + 1, 3000000000ULL, (1ULL << 32) - 2, (1ULL << 32) - 1}
+                  : std::vector<uint64_t>{(1ULL << 31) + 1, (1ULL << 32) - 1};
+  } else {
+    ns = thorough ? std::vector<uint64_t>{1ULL << 30, (1ULL << 30) + 1, 2000000001ULL, (1ULL << 31) - 2, (1ULL << 31) - 1}
+                  : std::vector<uint64_t>{(1ULL << 30) + 1, (1ULL << 31) - 1};
+  }
+  const std::vector<double> alphas = thorough ? std::vector<double>{0.0, 0.5, 1.0, 1.5, 3.0} : std::vector<double>{0.5, 1.0};
+  int idx = 0;
+  for (uint64_t n : ns)
+    for (int mk = 0; mk < 2; ++mk)
+      for (double a : alphas) {
+        if (idx++ % 8 != part) continue;  // eight jobs per type
+        const T mn = mk == 0 ? std::numeric_limits<T>::min() : static_cast<T>(static_cast<uint64_t>(std::numeric_limits<T>::max()) - (n - 1));
+        if (mk == 1 && mn == std::numeric_limits<T>::min()) continue;
+        EnumerateWide<T>(mn, n, a, st);
+      }
+}
+
 template <class T>
 std::vector<T>
 MinsFor(uint64_t n)
@@ -686,6 +838,8 @@ RunJobT(const std::string &kind, int part, bool thorough)
     const int steps = thorough ? 1200 : 600;
     for (uint64_t n : ns)
       for (int ai = 0; ai <= steps; ++ai) EnumerateJunction<T>(n, 60.0 * ai / steps, st);
+  } else if (kind == "c06w") {
+    if constexpr (sizeof(T) == 4) RunWide<T>(part, thorough, st);
   } else if (kind == "c18e" || kind == "c18a") {
     const bool exact = kind == "c18e";
     std::vector<uint64_t> ns;
@@ -758,7 +912,9 @@ ReplayInputT(const std::vector<std::string> &f)
   const double alpha = strtod(f[5].c_str(), nullptr);
   const uint64_t x = strtoull(f[6].c_str(), nullptr, 10);
   Stats st;
-  if (f[2] == "approx") {
+  if (f[2] == "wide") {
+    if constexpr (sizeof(T) == 4) EnumerateWide<T>(mn, static_cast<uint64_t>(static_cast<uint32_t>(mx) - static_cast<uint32_t>(mn)) + 1, alpha, st);
+  } else if (f[2] == "approx") {
     ApproxZipfDistribution<T> d{mn, mx, alpha};
     CheckDraw<T>(d, mn, mx, alpha, x, st, "replay");
   } else if (f[2] == "exact") {
@@ -832,6 +988,8 @@ main(int argc, char **argv)
         for (int part = 0; part < (thorough ? 5 : 2); ++part) jobs.push_back(vs::Job{std::string(kind) + ":" + t + ":" + std::to_string(part), ""});
     for (const char *t : {"u64", "i32"})
       for (int part = 0; part < 4; ++part) jobs.push_back(vs::Job{std::string("c06j:") + t + ":" + std::to_string(part), ""});
+    for (const char *t : {"u32", "i32"})
+      for (int part = 0; part < 8; ++part) jobs.push_back(vs::Job{std::string("c06w:") + t + ":" + std::to_string(part), ""});
     // object life cycle (copied / moved-from / re-assigned generators must still sample in range): shared with C19
     for (const char *t : types) jobs.push_back(vs::Job{std::string("c19:") + t + ":0", ""});
   } else if (prop == "C18") {
